@@ -259,9 +259,51 @@ class ExplicitElse(ast.NodeTransformer):
         return node
 
 
+class AliasRenamed(ast.NodeTransformer):
+    """import numpy as np -> import numpy as npx (and pandas as pd -> pdx), all uses renamed"""
+    MAP = {"np": "npx", "pd": "pdx"}
+
+    def visit_Import(self, node):
+        for a in node.names:
+            if a.asname in self.MAP:
+                a.asname = self.MAP[a.asname]
+        return node
+
+    def visit_Name(self, node):
+        if node.id in self.MAP:
+            return ast.copy_location(ast.Name(id=self.MAP[node.id], ctx=node.ctx), node)
+        return node
+
+
+class TempExtraction(ast.NodeTransformer):
+    """x = f(a) <op> e   ->   _tmp_tw = f(a); x = _tmp_tw <op> e   (plain assignments to a name whose value is a binary operation with
+    a call on the left; evaluation order is unchanged)"""
+
+    def _fix(self, body):
+        out = []
+        for st in body:
+            if isinstance(st, ast.Assign) and len(st.targets) == 1 and isinstance(st.targets[0], ast.Name) and isinstance(st.value, ast.BinOp) \
+                    and isinstance(st.value.left, ast.Call) and not any(isinstance(x, (ast.Lambda, ast.NamedExpr)) for x in ast.walk(st.value)):
+                tmp = f"_tmp_tw{st.lineno}"
+                out.append(ast.copy_location(ast.Assign(targets=[ast.Name(id=tmp, ctx=ast.Store())], value=st.value.left), st))
+                out.append(ast.copy_location(ast.Assign(targets=st.targets, value=ast.BinOp(left=ast.Name(id=tmp, ctx=ast.Load()), op=st.value.op,
+                                                                                           right=st.value.right)), st))
+            else:
+                out.append(st)
+        return out
+
+    def generic_visit(self, node):
+        super().generic_visit(node)
+        for fld in ("body", "orelse", "finalbody"):
+            b = getattr(node, fld, None)
+            if isinstance(b, list) and b and isinstance(b[0], ast.stmt):
+                setattr(node, fld, self._fix(b))
+        return node
+
+
 TWINS = {"renamed-locals": [Renamer], "mirrored-comparisons": [Commuter], "values-to_numpy": [ValuesTwin], "swapped-branches": [BranchSwap],
          "return-through-temporary": [ReturnTemp], "augmented-to-plain-assignment": [AugToAssign], "keywords-reordered": [KwargsReordered],
-         "explicit-else-after-return": [ExplicitElse]}
+         "explicit-else-after-return": [ExplicitElse], "library-alias-renamed": [AliasRenamed], "subexpression-in-temporary": [TempExtraction]}
 
 
 def make_twin(repo, transformers, only_files):
